@@ -290,6 +290,11 @@ def run_impl(case):
     for n, op in enumerate(case['ops']):
         nm = op[0]
         stats['op_' + nm] = stats.get('op_' + nm, 0) + 1
+        if case['gen'] == 'uuid':
+            # an application may reseed the global PRNG at any time ("reproducible runs"); fresh ids must not
+            # depend on it (uuid4 draws from os.urandom)
+            import random as _global_random
+            _global_random.seed(20240917)
         if nm == 'define':
             try:
                 m.define_class(op[1], [tuple(a) for a in op[2]])
